@@ -611,7 +611,7 @@ Theorem scalar_amplitude_divided P s v :
   p_amp P = FScalar v ->
   (forall P', plane_rescale P s = Ok P' -> o_amp P' = OScalar (v / s)) /\
   (forall a Pa' a' i j u, (forall y x, qget a y x = v) ->
-     plane_rescale (mkPlane (FArr a) (p_opd P) (p_mask P) (p_ps P)) s = Ok Pa' ->
+     plane_rescale (mkPlane (FArr a) (p_opd P) (p_mask P) (p_ps P) (p_tilt P)) s = Ok Pa' ->
      o_amp Pa' = OArr a' -> oget a' i j = Known u -> u = v / s).
 Proof. intros Ev. split.
   - intros P' H. apply plane_rescale_inv in H as (Ha & _). rewrite Ev in Ha. cbn in Ha. now injection Ha as <-.
@@ -647,7 +647,7 @@ Proof. repeat split; [apply qceil_ge|apply qceil_lt|intros c; apply qceil_unique
 
 Lemma nonvacuous :
   let a := mkQ 2 4 (fun i j => zq (1 + i + 2 * j)) false in
-  let P := mkPlane (FArr a) (FScalar (Q2Qc 0)) (MMono a) (Some (1, 1)) in
+  let P := mkPlane (FArr a) (FScalar (Q2Qc 0)) (MMono a) (Some (1, 1)) [] in
   exists P' a' m', plane_rescale P (zq 3 / zq 2) = Ok P' /\ o_amp P' = OArr a' /\ o_mask P' = OMono m' /\
     onr a' = 3%Z /\ onc a' = 6%Z /\ o_ps P' = Some (zq 2 / zq 3, zq 2 / zq 3) /\
     oget a' 0 0 = Known (zq 1 / (zq 3 / zq 2)) /\ oget a' 0 3 = Known (zq 5 / (zq 3 / zq 2)) /\
@@ -657,33 +657,34 @@ Proof. cbv zeta. eexists; eexists; eexists. split; [reflexivity|]. split; [refle
 Qed.
 
 (* ================= the general lentil.rescale (all arguments) ================= *)
-Lemma rescale_gen_default o img s : rescale_gen o img s ShNone None false false = util_rescale o img s.
+Lemma rescale_gen_default o img s : rescale_gen o img s ShNone None false = util_rescale o img s.
 Proof. reflexivity. Qed.
 
-Lemma rescale_gen_shape o img s sh pm pmi u r : rescale_gen o img s sh pm pmi u = Ok r ->
-  pmi = false /\ (onr r, onc r) = gen_shape img sh s.
-Proof. unfold rescale_gen. destruct pmi; [discriminate|]. destruct (gen_shape img sh s) as [N M].
+Lemma rescale_gen_shape o img s sh pm u r : rescale_gen o img s sh pm u = Ok r ->
+  True /\ (onr r, onc r) = gen_shape img sh s.
+Proof. unfold rescale_gen. destruct (gen_shape img sh s) as [N M].
   destruct u.
   - destruct (unitary_factor _ _ _ _) as [f|]; [destruct (nz f)|]; intros H; injection H as <-; auto.
   - intros H; injection H as <-; auto. Qed.
 
-Theorem general_shape_and_refusal o img s sh pm u :
-  rescale_gen o img s sh pm true u = Err ValueError /\
-  (forall r, rescale_gen o img s sh pm false u = Ok r ->
+Theorem general_shape o img s sh pm u :
+  (forall r, rescale_gen o img s sh pm u = Ok r ->
      match sh with
      | ShNone => onr r = rescale_shape (qnr img) s /\ onc r = rescale_shape (qnc img) s
      | ShScalar a => onr r = rescale_shape a s /\ onc r = rescale_shape a s
      | ShPair a b => onr r = rescale_shape a s /\ onc r = rescale_shape b s
      end) /\
-  (exists r, rescale_gen o img s sh pm false u = Ok r) /\
-  rescale_gen o img s ShNone None false false = util_rescale o img s.
+  (exists r, rescale_gen o img s sh pm u = Ok r) /\
+  rescale_gen o img s ShNone None false = util_rescale o img s /\
+  (forall mk eps, rescale_gen o img s sh (Some (as_float mk, eps)) u = rescale_gen o img s sh (Some (mk, eps)) u) /\
+  rescale_gen o (as_float img) s sh pm u = rescale_gen o img s sh pm u.
 Proof. repeat split.
   - intros r H. apply rescale_gen_shape in H as (_ & H). destruct sh; cbn in H; injection H; auto.
   - unfold rescale_gen. destruct (gen_shape img sh s) as [N M]. destruct u; [|eauto].
     destruct (unitary_factor _ _ _ _) as [f|]; [destruct (nz f)|]; eauto. Qed.
 
 (* non-unitary call with an explicit mask: what every output sample is *)
-Lemma rescale_gen_plain_get o img s sh pm r : rescale_gen o img s sh pm false false = Ok r ->
+Lemma rescale_gen_plain_get o img s sh pm r : rescale_gen o img s sh pm false = Ok r ->
   forall i j, oget r i j = sample_gen o img pm (coord (qnr img) (onr r) s i) (coord (qnc img) (onc r) s j).
 Proof. unfold rescale_gen. destruct (gen_shape img sh s) as [N M]. intros H; injection H as <-. reflexivity. Qed.
 
@@ -692,7 +693,7 @@ Lemma qlt_spec x y : qlt x y = true <-> x < y.
 Proof. unfold qlt. rewrite Qclt_alt. destruct (x ?= y); split; intros; congruence. Qed.
 
 Theorem explicit_mask_spec o img s sh mk eps r :
-  rescale_gen o img s sh (Some (mk, eps)) false false = Ok r ->
+  rescale_gen o img s sh (Some (mk, eps)) false = Ok r ->
   qnr mk = qnr img -> qnc mk = qnc img ->
   (forall i j y x, coord (qnr img) (onr r) s i = zq y -> (0 <= y < qnr img)%Z ->
                    coord (qnc img) (onc r) s j = zq x -> (0 <= x < qnc img)%Z ->
@@ -729,7 +730,7 @@ Proof. unfold unitary_factor. destruct (all_known N M pre) eqn:A; [|discriminate
   repeat split; auto. rewrite qsum2_scale. fold t. field. exact Ht. Qed.
 
 Theorem unitary_result o img s sh pm r :
-  rescale_gen o img s sh pm false true = Ok r ->
+  rescale_gen o img s sh pm true = Ok r ->
   let N := onr r in let M := onc r in
   let pre := fun i j => pre_sample o img (coord (qnr img) N s i) (coord (qnc img) M s j) in
   match unitary_factor img N M pre with
@@ -765,7 +766,7 @@ Proof. intros Hy Hx. unfold pre_sample. now rewrite Hy, Hx. Qed.
 Theorem unit_fraction_unitary img k N M r : (0 < k)%Z -> qnr img = (k * N)%Z -> qnc img = (k * M)%Z ->
   let t := qsum2 N M (fun i j => qget img (k * i) (k * j)) in
   t <> 0 ->
-  rescale_gen Cubic img (/ zq k) ShNone None false true = Ok r ->
+  rescale_gen Cubic img (/ zq k) ShNone None true = Ok r ->
   onr r = N /\ onc r = M /\
   (forall i j, (0 <= i < N)%Z -> (0 <= j < M)%Z ->
      oget r i j = Known (qget img (k * i) (k * j) * (qsum2 (qnr img) (qnc img) (qget img) / t))) /\
@@ -797,13 +798,12 @@ Definition ex_img : qarr := mkQ 4 4 (fun i j => zq (1 + i + 4 * j)) false.
 Definition ex_mask : qarr := mkQ 4 4 (fun i j => if (i =? 0)%Z then Q2Qc (1 # 1000000) else if (j =? 0)%Z then Q2Qc 0 else zq 2) false.
 
 Lemma ex_general_shape :
-  (exists r, rescale_gen Cubic ex_img (zq 3 / zq 2) (ShScalar 5) None false false = Ok r /\ onr r = 8%Z /\ onc r = 8%Z) /\
-  (exists r, rescale_gen Nearest0 ex_img (zq 3 / zq 2) (ShPair 2 5) None false false = Ok r /\ onr r = 3%Z /\ onc r = 8%Z) /\
-  rescale_gen Cubic ex_img (zq 2) ShNone None true false = Err ValueError.
+  (exists r, rescale_gen Cubic ex_img (zq 3 / zq 2) (ShScalar 5) None false = Ok r /\ onr r = 8%Z /\ onc r = 8%Z) /\
+  (exists r, rescale_gen Nearest0 ex_img (zq 3 / zq 2) (ShPair 2 5) None false = Ok r /\ onr r = 3%Z /\ onc r = 8%Z).
 Proof. repeat split; try (eexists; split; [reflexivity|]; split; vm_compute; reflexivity). Qed.
 
 Lemma ex_explicit_mask :
-  exists r, rescale_gen Cubic ex_img (zq 2) ShNone (Some (ex_mask, Q2Qc (1 # 1000))) false false = Ok r /\
+  exists r, rescale_gen Cubic ex_img (zq 2) ShNone (Some (ex_mask, Q2Qc (1 # 1000))) false = Ok r /\
     oget r 2 2 = Known (zq 12) /\          (* node (1,1): img = 6, mask = 2 *)
     oget r 0 2 = Known (Q2Qc 0) /\         (* node (0,1): mask 1e-6 < eps = 1e-3 -> 0 *)
     oget r 2 0 = Known (Q2Qc 0) /\         (* node (1,0): mask 0 *)
@@ -811,10 +811,93 @@ Lemma ex_explicit_mask :
 Proof. eexists; split; [reflexivity|]. repeat split; vm_compute; reflexivity. Qed.
 
 Lemma ex_unit_fraction_unitary :
-  exists r, rescale_gen Cubic ex_img (/ zq 2) ShNone None false true = Ok r /\ onr r = 2%Z /\ onc r = 2%Z /\
+  exists r, rescale_gen Cubic ex_img (/ zq 2) ShNone None true = Ok r /\ onr r = 2%Z /\ onc r = 2%Z /\
     oget r 0 0 = Known (zq 1 * (zq 136 / zq 24)) /\ oget r 1 1 = Known (zq 11 * (zq 136 / zq 24)).
 Proof. eexists; split; [reflexivity|]. repeat split; vm_compute; reflexivity. Qed.
 
 Lemma ex_unitary_poisoned :
-  exists r, rescale_gen Cubic ex_img (zq 3 / zq 2) ShNone None false true = Ok r /\ oget r 0 0 = Unknown.
+  exists r, rescale_gen Cubic ex_img (zq 3 / zq 2) ShNone None true = Ok r /\ oget r 0 0 = Unknown.
 Proof. eexists; split; [reflexivity|]. vm_compute; reflexivity. Qed.
+
+(* ================= tilt bookkeeping and plane._slice ================= *)
+Lemma first_from_spec f s n x : first_from f s n = Some x ->
+  (s <= x < s + Z.of_nat n)%Z /\ f x = true /\ forall y, (s <= y < x)%Z -> f y = false.
+Proof. revert s. induction n as [|n IH]; intros s; cbn [first_from]; [discriminate|].
+  destruct (f s) eqn:E.
+  - intros H; injection H as <-. repeat split; try lia; auto; try (intros; lia).
+  - intros H. apply IH in H as (H1 & H2 & H3). repeat split; try lia; auto.
+    intros y Hy. destruct (Z.eq_dec y s) as [->|]; [exact E|apply H3; lia]. Qed.
+Lemma first_from_none f s n : first_from f s n = None -> forall y, (s <= y < s + Z.of_nat n)%Z -> f y = false.
+Proof. revert s. induction n as [|n IH]; intros s; cbn [first_from]; [intros; lia|].
+  destruct (f s) eqn:E; [discriminate|]. intros H y Hy. destruct (Z.eq_dec y s) as [->|]; [exact E|apply (IH _ H); lia]. Qed.
+Lemma last_from_spec f s n x : last_from f s n = Some x ->
+  (s - Z.of_nat n < x <= s)%Z /\ f x = true /\ forall y, (x < y <= s)%Z -> f y = false.
+Proof. revert s. induction n as [|n IH]; intros s; cbn [last_from]; [discriminate|].
+  destruct (f s) eqn:E.
+  - intros H; injection H as <-. repeat split; try lia; auto; try (intros; lia).
+  - intros H. apply IH in H as (H1 & H2 & H3). repeat split; try lia; auto.
+    intros y Hy. destruct (Z.eq_dec y s) as [->|]; [exact E|apply H3; lia]. Qed.
+Lemma last_from_none f s n : last_from f s n = None -> forall y, (s - Z.of_nat n < y <= s)%Z -> f y = false.
+Proof. revert s. induction n as [|n IH]; intros s; cbn [last_from]; [intros; lia|].
+  destruct (f s) eqn:E; [discriminate|]. intros H y Hy. destruct (Z.eq_dec y s) as [->|]; [exact E|apply (IH _ H); lia]. Qed.
+
+Lemma row_has_spec a i : row_has a i = true <-> exists j, (0 <= j < onc a)%Z /\ is_one (oget a i j) = true.
+Proof. unfold row_has. rewrite existsb_exists. split; intros (j & H1 & H2); exists j; split; auto; apply zrange_in; auto. Qed.
+Lemma col_has_spec a j : col_has a j = true <-> exists i, (0 <= i < onr a)%Z /\ is_one (oget a i j) = true.
+Proof. unfold col_has. rewrite existsb_exists. split; intros (i & H1 & H2); exists i; split; auto; apply zrange_in; auto. Qed.
+
+(* the tight bounding box of the set samples *)
+Definition tight_box (a : oarr) (b : Z * Z * Z * Z) : Prop :=
+  let '(r0, r1, c0, c1) := b in
+  (0 <= r0 < r1)%Z /\ (r1 <= onr a)%Z /\ (0 <= c0 < c1)%Z /\ (c1 <= onc a)%Z /\
+  (forall i j, (0 <= i < onr a)%Z -> (0 <= j < onc a)%Z -> is_one (oget a i j) = true -> (r0 <= i < r1)%Z /\ (c0 <= j < c1)%Z) /\
+  row_has a r0 = true /\ row_has a (r1 - 1) = true /\ col_has a c0 = true /\ col_has a (c1 - 1) = true.
+
+Lemma bbox_tight a : has_one a = true -> tight_box a (bbox a).
+Proof. intros H. apply has_one_spec in H as (i0 & j0 & Hi0 & Hj0 & H0).
+  assert (R0 : row_has a i0 = true) by (apply row_has_spec; eauto).
+  assert (C0 : col_has a j0 = true) by (apply col_has_spec; eauto).
+  unfold bbox.
+  destruct (first_from (row_has a) 0 (Z.to_nat (onr a))) as [r0|] eqn:F1;
+    [|rewrite (first_from_none _ _ _ F1 i0) in R0 by lia; discriminate].
+  destruct (last_from (row_has a) (onr a - 1) (Z.to_nat (onr a))) as [r1|] eqn:L1;
+    [|rewrite (last_from_none _ _ _ L1 i0) in R0 by lia; discriminate].
+  destruct (first_from (col_has a) 0 (Z.to_nat (onc a))) as [c0|] eqn:F2;
+    [|rewrite (first_from_none _ _ _ F2 j0) in C0 by lia; discriminate].
+  destruct (last_from (col_has a) (onc a - 1) (Z.to_nat (onc a))) as [c1|] eqn:L2;
+    [|rewrite (last_from_none _ _ _ L2 j0) in C0 by lia; discriminate].
+  apply first_from_spec in F1 as (A1 & A2 & A3). apply last_from_spec in L1 as (B1 & B2 & B3).
+  apply first_from_spec in F2 as (D1 & D2 & D3). apply last_from_spec in L2 as (E1 & E2 & E3).
+  assert (Hbox : forall i j, (0 <= i < onr a)%Z -> (0 <= j < onc a)%Z -> is_one (oget a i j) = true ->
+                 (r0 <= i <= r1)%Z /\ (c0 <= j <= c1)%Z).
+  { intros i j Hi Hj Hone.
+    assert (Ri : row_has a i = true) by (apply row_has_spec; eauto).
+    assert (Cj : col_has a j = true) by (apply col_has_spec; eauto).
+    repeat split.
+    - destruct (Z_lt_le_dec i r0) as [L|]; [rewrite A3 in Ri by lia; discriminate|lia].
+    - destruct (Z_lt_le_dec r1 i) as [L|]; [rewrite B3 in Ri by lia; discriminate|lia].
+    - destruct (Z_lt_le_dec j c0) as [L|]; [rewrite D3 in Cj by lia; discriminate|lia].
+    - destruct (Z_lt_le_dec c1 j) as [L|]; [rewrite E3 in Cj by lia; discriminate|lia]. }
+  destruct (Hbox i0 j0 Hi0 Hj0 H0) as (X1 & X2).
+  unfold tight_box. replace (r1 + 1 - 1)%Z with r1 by lia. replace (c1 + 1 - 1)%Z with c1 by lia.
+  repeat split; try lia; auto; try (destruct (Hbox i j) as (Y1 & Y2); auto; lia). Qed.
+
+Theorem tilt_and_slice P s P' : plane_rescale P s = Ok P' ->
+  o_tilt P' = p_tilt P /\
+  (forall a', o_mask P' = OMono a' -> exists b, o_slice P' = [b] /\ tight_box a' b) /\
+  (forall l', o_mask P' = OCube l' -> length (o_slice P') = length l' /\ Forall2 tight_box l' (o_slice P')).
+Proof. intros H. pose proof (plane_rescale_nonempty _ _ _ H) as Hne.
+  unfold plane_rescale in H.
+  apply rbind_ok in H as (a & Ha & H). apply rbind_ok in H as (o & Ho & H). apply rbind_ok in H as (m & Hm & H).
+  injection H as <-. cbn [o_tilt o_mask o_slice] in *. split; [reflexivity|]. split.
+  - intros a' ->. cbn in *. eexists; split; [reflexivity|]. apply bbox_tight. exact Hne.
+  - intros l' ->. cbn [slices nonempty_msk] in *. split; [apply map_length|].
+    rewrite forallb_forall in Hne. clear Hm. induction l' as [|x t IH]; cbn [map]; constructor.
+    + apply bbox_tight. apply Hne. left; reflexivity.
+    + apply IH. intros y Hy. apply Hne. right; exact Hy. Qed.
+
+Lemma ex_tilt_and_slice :
+  let a := mkQ 4 4 (fun i j => if ((1 <=? i) && (i <=? 2) && (j =? 1))%Z then 1 else Q2Qc 0) false in
+  let P := mkPlane (FScalar 1) (FScalar (Q2Qc 0)) (MMono a) None [(zq 3, zq 5)] in
+  exists P', plane_rescale P (zq 2) = Ok P' /\ o_tilt P' = [(zq 3, zq 5)] /\ o_slice P' = [(1, 5, 1, 3)%Z].
+Proof. cbv zeta. eexists; split; [reflexivity|]. split; vm_compute; reflexivity. Qed.
